@@ -458,7 +458,7 @@ func shrinkC30(scAny any) []any {
 
 func init() {
 	Register(&Prop{ID: "C30", Level: "exploration",
-		Rule: "one case = a TLS configuration drawn from {DefaultTLSConfig or zero value} x Min/MaxVersion in {0, 1.0, 1.1, 1.2, 1.3} (55% recommended ranges) x the five ClientAuth modes x CA file {none, the CA, missing, blank, damaged} (the process's system root store is set to the FOREIGN CA, so a server that falls back to system roots serves the foreign-CA client) x cipher suites {as given, Go defaults, with CBC-SHA suites}; when Listen accepts it (real BuildConfig/Validate, tls.Listen seam on the simulated network, real crypto/tls on both ends) 2-6 clients offering version ranges within 1.0..1.3 (35% downgrade attempts capped at 1.0/1.1 with the CBC-SHA suites those versions need) and a certificate from {none, self-signed, signed by the configured CA, signed by another CA} half of them without a server name in the ClientHello, perform a handshake followed by a NULL call (a handshake counts as completed when the server answers); in half of the runs the certificate files are replaced between the first and the second half of the clients and the documented rotation step is performed (optionally after an unrelated UpdatePolicyOptions; in a quarter of the rotations another ReloadCertificates call that was started before the files were replaced overlaps with the step, under the seeded scheduler); in 30% of the runs with a CA the server is stopped between the halves, the CA file is replaced at the same path by another CA and a new instance is started in the same process (the verified chain must then be the new CA's); oracle: no served connection negotiated less than TLS 1.2; when client certificates are verified against the configured CA (RequireAndVerify, or VerifyIfGiven with a certificate given) only the CA-signed client is served; every served handshake presents the leaf certificate currently in the files as of the last rotation step; non-trivial = the configuration was accepted; distinct by event digest. The simulator contributes the network seam and determinism; the schedule dimension is small (sequential clients).",
+		Rule: "one case = a TLS configuration drawn from {DefaultTLSConfig or zero value} x Min/MaxVersion in {0, 1.0, 1.1, 1.2, 1.3} (55% recommended ranges) x the five ClientAuth modes x CA file {none, the CA, missing, blank, damaged} (the process's system root store is set to the FOREIGN CA, so a server that falls back to system roots serves the foreign-CA client) x cipher suites {as given, Go defaults, with CBC-SHA suites}; when Listen accepts it (real BuildConfig/Validate, tls.Listen seam on the simulated network, real crypto/tls on both ends) 2-6 clients offering version ranges within 1.0..1.3 (35% downgrade attempts capped at 1.0/1.1 with the CBC-SHA suites those versions need) and a certificate from {none, self-signed, signed by the configured CA, signed by another CA} half of them without a server name in the ClientHello, perform a handshake followed by a NULL call (a handshake counts as completed when the server answers); in half of the runs the certificate files are replaced between the first and the second half of the clients and the documented rotation step is performed (optionally after an unrelated UpdatePolicyOptions; in a quarter of the rotations another ReloadCertificates call that was started before the files were replaced overlaps with the step, under the seeded scheduler); in 30% of the runs with a CA the server is stopped between the halves, the CA file is replaced at the same path by another CA and a new instance is started in the same process (the verified chain must then be the new CA's); oracle: no served connection negotiated less than TLS 1.2; when client certificates are verified against the configured CA (RequireAndVerify, or VerifyIfGiven with a certificate given) only the CA-signed client is served; every served handshake presents the leaf certificate currently in the files as of the last rotation step; a quarter of the rotations replace certificate AND key in two steps, with a reload in between that meets the new certificate with the old key (it fails; the documented step is the reload after the key has been replaced as well, on the same settings object); non-trivial = the configuration was accepted; distinct by event digest. The simulator contributes the network seam and determinism; the schedule dimension is small (sequential clients).",
 		Gen:  genC30, New: func() any { return &C30Scn{} }, Run: runC30, Shrink: shrinkC30,
 		Real:        []string{"tls_config.go Validate/BuildConfig/ReloadCertificates/Clone", "server.go Listen/accept/connection loop", "crypto/tls and crypto/x509 on both ends", "options.go policy snapshots (GetExportOptions, UpdatePolicyOptions)"},
 		Stubbed:     []string{"kernel TCP (simnet under tls.NewListener / tls.Client)", "clock (synctest)", "scheduler", "certificate files live in a per-run temporary directory on the real filesystem"},
